@@ -16,6 +16,7 @@ static unsigned long long il_tv[MAXT];     /* temp values (bit patterns) */
 static char il_tc[MAXT];                   /* temp classes: 0 = undefined */
 static int il_class_errors, il_undef_uses, il_unmodelled, il_nblocks_run, il_redefs;
 static bool il_allow_redef;            /* set by harnesses that execute loops: a temporary is then assigned once per iteration */
+static struct inst **il_cur_ip; static size_t il_cur_left;      /* position of the instruction being executed (a call finds its IARG successors there) */
 static struct block *il_exit_block;        /* block whose jump ended the run */
 static struct value *il_ret;               /* value returned by JUMP_RET, if any */
 static int il_endkind;                     /* JUMP_* kind that ended the run, or -1 when stopped at il_stop_at */
@@ -216,7 +217,7 @@ static void il_run(struct block *b, struct block *pred, int depth) {
 		}
 		/* index-based: the byte length of the instruction array is a concrete integer, while arrayforeach's pointer comparison is
 		 * not always simplified by symex (then every extra unwinding interprets a garbage instruction symbolically) */
-		{ size_t n_ = b->insts.len / sizeof(struct inst *); ip = b->insts.val; for (size_t i_ = 0; i_ < n_; i_++) il_inst(ip[i_]); }
+		{ size_t n_ = b->insts.len / sizeof(struct inst *); ip = b->insts.val; for (size_t i_ = 0; i_ < n_; i_++) { il_cur_ip = ip + i_; il_cur_left = n_ - i_; il_inst(ip[i_]); } }
 		switch (b->jump.kind) {
 		case JUMP_NONE: pred = b; b = b->next; continue;       /* fall through to the next block */
 		case JUMP_JMP: pred = b; b = b->jump.blk[0]; continue;
